@@ -360,6 +360,14 @@ func c13Handshake(c *vf.Case, ioc *sonic.IO) {
 			}
 		}
 		switch kind {
+		case "ok":
+			key := ""
+			for _, line := range strings.Split(req, "\r\n") {
+				if strings.HasPrefix(strings.ToLower(line), "sec-websocket-key:") {
+					key = strings.TrimSpace(line[len("sec-websocket-key:"):])
+				}
+			}
+			_, _ = conn.Write([]byte("HTTP/1.1 101 Switching Protocols\r\nUpgrade: websocket\r\nConnection: Upgrade\r\nSec-WebSocket-Accept: " + c18Accept(key) + "\r\n\r\n"))
 		case "closes-after-k":
 			_, _ = conn.Write([]byte("HTTP/1.1 101 Switching Protocols\r\nUpgrade: websocket\r\nConnection: Upgrade\r\nSec-WebSocket-Accept: x\r\n\r\n")[:r.Range(1, 60)])
 		case "status-200":
@@ -403,6 +411,16 @@ func c13Handshake(c *vf.Case, ioc *sonic.IO) {
 			}
 			_ = run(kind, async) // warm-up
 			_ = s.CloseNextLayer()
+			// a complete, successful session on the same stream first: the failing handshakes below then run on a
+			// stream that has been used before (half of the rounds)
+			if r.Bool() {
+				if err := run("ok", async); err != nil {
+					c.Failf("harness-setup", "reference handshake failed: %v", err)
+					return
+				}
+				_ = s.CloseNextLayer()
+				c.Count("failing_handshakes_after_a_successful_session", 1)
+			}
 			time.Sleep(time.Millisecond)
 			before := rawpeer.TakeCensus()
 			fails := 0
@@ -578,6 +596,124 @@ func c13AdapterOwnership(c *vf.Case, ioc *sonic.IO) {
 		c.Failf("second-close-closed-a-foreign-descriptor/adapter-and-its-net.Conn", "closing an AsyncAdapter and then the net.Conn it wraps closed a descriptor that meanwhile belonged to another object: %v", closed)
 	}
 	_ = other.Close()
+}
+
+// c13DoubleCloseThenGC: close A; create B on the freed descriptor number and leave an operation deferred on it;
+// close A AGAIN; drop every reference to B; collect. B's owner must stay alive and its completion must arrive: a
+// second Close of A must not touch anything (descriptor, poller registration, keep-alive entry) that now belongs
+// to B.
+func c13DoubleCloseThenGC(c *vf.Case, ioc *sonic.IO) {
+	cls := c13Closables()
+	victims := []string{"listener-accept", "packet-conn-read", "conn-read", "udp-peer-read"}
+	for _, a := range cls {
+		if a.name == "io" {
+			continue
+		}
+		for _, vk := range victims {
+			if c.Failed() {
+				return
+			}
+			closeA, _, err := a.make(ioc)
+			if err != nil {
+				c.Failf("harness-setup", "%s: %v", a.name, err)
+				return
+			}
+			_ = closeA()
+			finalized := new(int32)
+			completed := 0
+			var trigger func()
+			var peerFd = -1
+			func() {
+				sentinel := &c13Sentinel{}
+				runtime.SetFinalizer(sentinel, func(*c13Sentinel) { *finalized = 1 })
+				switch vk {
+				case "listener-accept":
+					l, err := sonic.Listen(ioc, "tcp", "127.0.0.1:0", sonicopts.Nonblocking(true))
+					if err != nil {
+						return
+					}
+					sa, _ := syscall.Getsockname(l.RawFd())
+					port := sa.(*syscall.SockaddrInet4).Port
+					l.AsyncAccept(func(err error, cn sonic.Conn) {
+						completed++
+						if cn != nil {
+							cn.Close()
+						}
+						_ = sentinel.pad[0]
+					})
+					trigger = func() { peerFd, _, _ = rawpeer.Connect4(port) }
+				case "packet-conn-read":
+					p, err := sonic.NewPacketConn(ioc, "udp", "127.0.0.1:0")
+					if err != nil {
+						return
+					}
+					sa, _ := syscall.Getsockname(p.RawFd())
+					pfd, _, _ := rawpeer.UDP4([4]byte{127, 0, 0, 1})
+					peerFd = pfd
+					p.AsyncReadFrom(make([]byte, 16), func(err error, n int, _ net.Addr) { completed++; _ = sentinel.pad[0] })
+					trigger = func() { _ = syscall.Sendto(pfd, []byte("x"), 0, sa) }
+				case "udp-peer-read":
+					p, err := multicast.NewUDPPeer(ioc, "udp", "127.0.0.1:0")
+					if err != nil {
+						return
+					}
+					port := p.LocalAddr().Port
+					pfd, _, _ := rawpeer.UDP4([4]byte{127, 0, 0, 1})
+					peerFd = pfd
+					p.AsyncRead(make([]byte, 16), func(err error, n int, _ netip.AddrPort) { completed++; _ = sentinel.pad[0] })
+					trigger = func() {
+						_ = syscall.Sendto(pfd, []byte("x"), 0, &syscall.SockaddrInet4{Addr: [4]byte{127, 0, 0, 1}, Port: port})
+					}
+				default:
+					lfd, port, _ := rawpeer.Listen4()
+					defer syscall.Close(lfd)
+					cn, err := sonic.Dial(ioc, "tcp", rawpeer.AddrOf(port))
+					if err != nil {
+						return
+					}
+					pfd, _, _ := rawpeer.Accept(lfd)
+					peerFd = pfd
+					saved := ioc.Dispatched
+					ioc.Dispatched = sonic.MaxCallbackDispatch
+					cn.AsyncRead(make([]byte, 16), func(err error, n int) { completed++; _ = sentinel.pad[0] })
+					ioc.Dispatched = saved
+					trigger = func() { _, _ = rawpeer.WriteSome(pfd, []byte("x")) }
+				}
+			}()
+			if trigger == nil {
+				c.Failf("harness-setup", "cannot create victim %s", vk)
+				return
+			}
+			_ = closeA() // the second Close of A, after B took over whatever number A had
+			for round := 0; round < 3; round++ {
+				runtime.GC()
+				junk := make([][]byte, 0, 500)
+				for i := 0; i < 500; i++ {
+					junk = append(junk, make([]byte, 512))
+				}
+				_ = junk
+			}
+			time.Sleep(time.Millisecond)
+			c.Cover("double_close_then_gc_pairs", a.name+" then "+vk)
+			c.Count("double_close_then_gc_probes", 1)
+			if *finalized == 1 {
+				c.Failf("second-close-unrooted-another-object/"+a.name, "closing a %s twice, with a %s created in between and an operation deferred on it: after the second Close the new object was garbage collected while its operation was still in flight", a.name, vk)
+				return
+			}
+			trigger()
+			for i := 0; i < 400 && completed == 0; i++ {
+				_ = ioc.RunOneFor(time.Millisecond)
+			}
+			if completed != 1 {
+				c.Failf("second-close-broke-another-objects-operation/"+a.name, "closing a %s twice, with a %s created in between: the %s's deferred operation completed %d times", a.name, vk, vk, completed)
+				return
+			}
+			if peerFd >= 0 {
+				syscall.Close(peerFd)
+			}
+		}
+	}
+	runtime.GC()
 }
 
 type c13Sentinel struct{ pad [64]byte }
@@ -801,6 +937,9 @@ func runC13(c *vf.Case) {
 		c13DoubleClose(c, ioc)
 		if !c.Failed() {
 			c13AdapterOwnership(c, ioc)
+		}
+		if !c.Failed() {
+			c13DoubleCloseThenGC(c, ioc)
 		}
 		c.NonTrivial(fmt.Sprintf("double-close/%d", c.Index))
 	default:
